@@ -13,3 +13,7 @@ pub broadcast proof fn axiom_string_obeys_eq_spec() ensures #[trigger] <String a
 #[verifier::external_body]
 pub broadcast proof fn axiom_string_eq_spec(a: String, b: String)
     ensures #[trigger] vstd::std_specs::cmp::PartialEqSpec::eq_spec(&a, &b) == (a@ == b@) {}
+// ---- core::result / core::option adapters missing from vstd ----
+pub assume_specification<T, E> [core::result::Result::<T, E>::unwrap_or] (r: core::result::Result<T, E>, d: T) -> (o: T)
+    where E: core::marker::Destruct, T: core::marker::Destruct,
+    ensures o == (match r { Ok(v) => v, Err(_) => d });
